@@ -643,7 +643,26 @@ def check_C15(chk, tier):
                   bounds="structurally nonsingular patterns n<=6 (10 thorough) incl. zero diagonal; drop settings {default, disabled, aggressive}; MILU variants; NOROWPERM / LargeDiag_MC64; NOTRANS/TRANS; symbolic B, concrete or partly/fully symbolic A")
 
 
-REGISTRY = {"C15": check_C15, "C16": check_C16, "C13": check_C13, "C12": check_C12, "C11": check_C11, "C09": check_C09, "C19": check_C19, "C20": check_C20, "C07": check_C07, "C14": check_C14, "C10": check_C10, "C08": check_C08, "C18": check_C18, "C05": check_C05, "C06": check_C06, "C01": check_C01, "C02": check_C02, "C03": check_C03, "C04": check_C04}
+# ------------------------------------------------------------------------------------------------ C17 large-diagonal permutation
+def check_C17(chk, tier):
+    chk.assumptions += ["log model: every distinct argument of log() gets a fresh real atom with pairwise monotonicity/injectivity axioms and range [-745, 710]; mc64's arithmetic after the logs is add/subtract/compare, so obligations are linear over those atoms",
+                        "stored entries are assumed nonzero (explicit zeros in the file of values are outside this harness); the unit scaling is checked in log form u_i + v_j + log|a_ij| <= 0 with equality on the matching, only when the routine returns 0 (return value 2 = mc64's 'scaling factors large' warning)",
+                        "sizes n <= 3 (all patterns incl. structurally singular); the exp() applied by the ILU driver afterwards is a monotone bijection (assumed)"] + COMMON_ASSUME[2:]
+    q = tier == "quick"
+    for prec in (["d"] if q else ["d", "s", "z"]):
+        cs = []
+        for n in (1, 2, 3):
+            for pat in C.all_patterns(n, n):
+                if pat == 0: continue
+                sing = int(C.structural_rank(n, n, pat) < n); nnzp = bin(pat).count("1")
+                if n == 3 and q and not sing and nnzp > 5 and pat not in (511, C.band(3, 1, 1), C.arrow(3)): continue
+                if n == 3 and sing and q and nnzp > 4: continue
+                cs.append((n, hex(pat), -1 if (nnzp <= (6 if q else 9)) else 0b101, sing))
+        run_phase(chk, "ldperm(job 5)/" + prec, H + "h_ldperm.c", list(dict.fromkeys(cs)), ["C17."], prec=prec, budget_s=220 if q else 1800, validate_samples=0, qtimeout_ms=5000 if q else 60000, path_timeout=60 if q else 600,
+                  bounds="all 1x1, 2x2 patterns and (quick: selected; thorough: all) 3x3 patterns, symbolic nonzero magnitudes through the log model")
+
+
+REGISTRY = {"C17": check_C17, "C15": check_C15, "C16": check_C16, "C13": check_C13, "C12": check_C12, "C11": check_C11, "C09": check_C09, "C19": check_C19, "C20": check_C20, "C07": check_C07, "C14": check_C14, "C10": check_C10, "C08": check_C08, "C18": check_C18, "C05": check_C05, "C06": check_C06, "C01": check_C01, "C02": check_C02, "C03": check_C03, "C04": check_C04}
 
 
 def run(pid, tier):
